@@ -158,6 +158,7 @@ func runC17(c *Ctx) {
 			c.addBuild(newTypeCase(t, cfg), "", "instances recursive-tagged", "recursive-tagged")
 		}
 	}
+	runC17Positions(c)
 	// which codec is in use at each position: by descriptor
 	p := newInstance(Cfg{WithBQ: true, WithJSON: true})
 	cd, err := p.CodecForType(reflect.TypeOf(RegHolder{}))
